@@ -82,6 +82,7 @@ impl World for WatermarkWorld {
                 "Periodic strategy: only monotonicity, 'never above the largest stamp seen', lateness and conservation are judged; when a periodic watermark is due is not part of the property".into(),
                 "event ids are assigned by the harness".into(),
             ],
+            hang_is_a_verdict: true,
             required_probes: vec![
                 "probe.late_event",
                 "probe.late_allowed",
